@@ -33,12 +33,10 @@ theorem step_next_some (m : Mon) (i : Nat) (k : Key) (v : Val) (w : Watch)
     ((!w.inserted && w.returned.contains k) = false →
       (IterMon.step m (.iterNext i) (.item (some (k, v)))).flags.twice = m.flags.twice) := by
   simp only [IterMon.step, h]
-  refine ⟨rfl, rfl, ?_, ?_⟩
+  refine ⟨trivial, trivial, ?_, ?_⟩
   · simp only [apply_ite Flags.incomplete, ite_self]
-    simp
   · intro hc
     simp only [hc, Bool.false_eq_true, ite_false, apply_ite Flags.twice, ite_self]
-    simp
 
 theorem step_next_end (m : Mon) (i : Nat) (w : Watch) (h : m.watches.find? (·.id == i) = some w) :
     (IterMon.step m (.iterNext i) (.item none)).dict = (m.dict.step (.iterNext i)).1 ∧
@@ -48,12 +46,10 @@ theorem step_next_end (m : Mon) (i : Nat) (w : Watch) (h : m.watches.find? (·.i
     (w.stable.all (w.returned.contains ·) = true →
       (IterMon.step m (.iterNext i) (.item none)).flags.incomplete = m.flags.incomplete) := by
   simp only [IterMon.step, h]
-  refine ⟨rfl, rfl, ?_, ?_⟩
+  refine ⟨trivial, trivial, ?_, ?_⟩
   · simp only [apply_ite Flags.twice, ite_self]
-    simp
   · intro hc
     simp only [hc, ite_true, apply_ite Flags.incomplete, ite_self]
-    simp
 
 theorem R.iterNext {t : HT} {m : Mon} (r : R t m) (i : Nat) :
     R (t.step (.iterNext i)).1 (IterMon.step m (.iterNext i) (t.step (.iterNext i)).2.res) := by
